@@ -510,6 +510,12 @@ class DOK(SparseArray, NDArrayOperatorsMixin):
 
         return self.asformat("coo").asformat(format, **kwargs)
 
+    def isinf(self):
+        return self.to_coo().isinf().asformat("dok")
+
+    def isnan(self):
+        return self.to_coo().isnan().asformat("dok")
+
     def reshape(self, shape, order="C"):
         """
         Returns a new [`sparse.DOK`][] array that is a reshaped version of this array.
